@@ -82,11 +82,14 @@ type Profile struct {
 	AttrPct int
 }
 
-var valueAlphabet = []string{"", "1", "2", "10", "x", "1x", " 12 ", "1e3", "-3", "abc", "2.5", "0"}
+// (incl. numbers padded with characters that Go's unicode.IsSpace accepts but XML/XPath whitespace does not —
+// VT and FF; the non-ASCII ones (NBSP, NEL, EM SPACE) are left out: the string functions of the package count
+// bytes, and the properties speak about ASCII strings)
+var valueAlphabet = []string{"", "1", "2", "10", "x", "1x", " 12 ", "1e3", "-3", "abc", "2.5", "0", "\v9", "3\f", "\t4\n"}
 var plainProfile = Profile{Names: []string{"a", "b", "c"}, AttrN: []string{"k", "m", "a"}, Values: valueAlphabet, TextPct: 25, CommPct: 8, AttrPct: 40}
 var collideProfile = Profile{Names: []string{"a", "b", "a-1", "a1", "a-1-2"}, AttrN: []string{"k", "a", "b"}, Values: []string{"1", "2", "a", "a-1", "x", ""}, TextPct: 25, CommPct: 10, AttrPct: 50}
 var nsProfile = Profile{Names: []string{"a", "b"}, AttrN: []string{"k", "a"}, Values: []string{"1", "x", ""}, NS: true, TextPct: 15, CommPct: 5, AttrPct: 50}
-var numericProfile = Profile{Names: []string{"a", "b", "c"}, AttrN: []string{"k", "m"}, Values: []string{"1", "2", "10", "2.5", "-3", "0", "7"}, TextPct: 35, CommPct: 3, AttrPct: 40}
+var numericProfile = Profile{Names: []string{"a", "b", "c"}, AttrN: []string{"k", "m"}, Values: []string{"1", "2", "10", "2.5", "-3", "0", "7", " 7 ", "\v7", "\t7"}, TextPct: 35, CommPct: 3, AttrPct: 40}
 
 type nsChoice struct{ pfx, uri string }
 
@@ -221,6 +224,9 @@ func genFlatPath(r *rng) string {
 		switch {
 		case i == n-1 && r.chance(1, 4):
 			parts = append(parts, r.pick([]string{"@k", "@*", "@a", "attribute::m"}))
+		case i < n-1 && r.chance(1, 10):
+			// an attribute step in the middle: what follows starts from attribute nodes
+			parts = append(parts, r.pick([]string{"@*", "@k", "attribute::node()"}))
 		case r.chance(1, 6):
 			parts = append(parts, r.pick([]string{".", "self::a", "self::*", "self::node()"}))
 		default:
